@@ -322,6 +322,28 @@ func c16Round(c *vk.Ctx, r *rand.Rand, round int) bool {
 		}
 		defer d53.Stop()
 	}
+	// datagrams from endpoints the client never addressed (a second socket of a target host, a
+	// third party): they arrive on the association's socket like any other and are reported
+	tp, tperr := NewUDPEnd(net.IPv4(45, 69, b, 77).To4(), 0)
+	if tperr == nil {
+		defer tp.Close()
+		for _, cc := range clients {
+			if cc.sock == nil {
+				continue
+			}
+			as := w.rig.Rec.ByClient(cc.cl.Addr.String())
+			if len(as) == 0 || len(as[len(as)-1].Snap().Removed) > 0 {
+				continue
+			}
+			_, ps, _ := net.SplitHostPort(cc.sock.Local)
+			ua, _ := net.ResolveUDPAddr("udp", "203.0.113.77:"+ps)
+			for _, sender := range []*UDPEnd{tp, w.targets[1].UDPEnd} {
+				sender.Send(replyPayload(nextID(c.Batch), 1, 8+r.Intn(500)), ua)
+				c.Count("datagrams_from_unaddressed_endpoints", 1)
+			}
+			c.Eval("reply|from-unaddressed-endpoint")
+		}
+	}
 	// oversized replies: the packed datagram does not fit a UDP datagram / the buffer
 	for i, cc := range clients {
 		if i%2 == 1 || len(cc.expect) == 0 {
@@ -435,6 +457,27 @@ func c16Round(c *vk.Ctx, r *rand.Rand, round int) bool {
 			}
 			c.Count("client_datagram_reports_checked", 1)
 		}
+		// every datagram the server read from the association's socket is reported, once (hook H2
+		// sees the reads on the socket itself)
+		if cc.sock != nil && len(as) == 1 {
+			reads := 0
+			var readBytes int64
+			for _, e := range cc.sock.Snap() {
+				if e.Kind == "readFrom" && e.Err == "" {
+					reads++
+					readBytes += int64(e.N)
+				}
+			}
+			var repBytes int64
+			for _, e := range fromTarget {
+				repBytes += e.A
+			}
+			if reads != len(fromTarget) || readBytes != repBytes {
+				c.Violation("C16/datagrams-read-from-target-socket-differ-from-reports", map[string]any{"client": cc.cl.Addr.String(), "read_from_socket": reads, "reported_from_target": len(fromTarget), "bytes_read": readBytes, "bytes_reported": repBytes})
+				return false
+			}
+			c.Count("socket_reads_vs_reports_checked", 1)
+		}
 		// replies: what the client actually received vs reports with status OK; failed ones carry 0 bytes
 		recv := cc.cl.Snap()
 		okReports := 0
@@ -521,13 +564,13 @@ func init() {
 	vk.Register(&vk.Spec{
 		ID:          "C16",
 		Level:       "exploration",
-		Rule:        "rounds of 6..16 clients x 10..24 steps on the real packet handler with metrics = tee(recorder, real Prometheus collectors): datagrams of unique sizes (valid with 0..2 replies, wrong key / garbage on live associations, private/loopback destination, bad address), oversized replies (65460..65507 bytes: send or pack fails), injected outbound write errors on every other socket; short timeout so all associations expire before the audit; per-datagram report sequence vs the send log, replies vs datagrams received by clients, conservation vs target sockets, gathered families vs recorder sums",
+		Rule:        "rounds of 6..16 clients x 10..24 steps on the real packet handler with metrics = tee(recorder, real Prometheus collectors): datagrams of unique sizes (valid with 0..2 replies, wrong key / garbage on live associations, private/loopback destination, bad address), oversized replies (65460..65507 bytes: send or pack fails), datagrams from endpoints the client never addressed, injected outbound write errors on every other socket; short timeout so all associations expire before the audit; per-datagram report sequence vs the send log, replies vs datagrams received by clients, reads on the association socket (hook H2) vs reports, conservation vs target sockets, gathered families vs recorder sums",
 		Assumptions: []string{"a valid datagram that does not reach its target within 2 s is classed as a (possibly injected) write failure; its report may say OK only if the kernel accepted the write"},
 		Batches:     func(t string) int { return map[string]int{"quick": 4, "thorough": 16}[t] },
 		Parallel:    func(t string) int { return 4 },
 		Timeout:     func(t string) time.Duration { return 25 * time.Minute },
 		Run: func(c *vk.Ctx) {
-			for _, s := range []string{"client_datagram_reports_checked", "reply_reports_checked", "audits_passed", "failed_reply_reports", "oversized_replies_sent", "dns_single_query_clients", "expiry_cycles_reported"} {
+			for _, s := range []string{"client_datagram_reports_checked", "reply_reports_checked", "audits_passed", "failed_reply_reports", "oversized_replies_sent", "dns_single_query_clients", "expiry_cycles_reported", "datagrams_from_unaddressed_endpoints", "socket_reads_vs_reports_checked"} {
 				c.Require(s)
 			}
 			c16Run(c)
